@@ -74,4 +74,5 @@ def _c04_extend_multiexon_selflap(clause, facts):
         location itself gives overlapping parts. Must not hide: ill-formed results for single-part
         or contiguous two-part inputs, or for extensions that do not self-lap. """
     return (clause.startswith("extend-wellformed:") and facts.get("self_lapping") is True
-            and facts.get("has_introns") is True and facts.get("any_bridging") is True)
+            and (facts.get("has_introns") is True or facts.get("parts", 0) >= 3)      # several exons, touching or not
+            and facts.get("any_bridging") is True)
